@@ -143,6 +143,7 @@ template<class P> struct Rc : RcBase
 };
 
 static std::unique_ptr<RcBase> rc;
+static std::string rcType;
 
 static RcBase * makeRc(const std::string & ty)
 {
@@ -331,7 +332,7 @@ template<class P> static std::string rrReal(const Toks & t)
    (ty) == "c3d" ? fn<Eigen::Vector3d>(t) : (ty) == "h3d" ? fn<HomogeneousCoordinates3d>(t) : throw vp::BadOp())
 
 // ------------------------------------------------------------------------------------------------ protocol
-static void reset() { rc.reset(); }
+static void reset() { rc.reset(); rcType.clear(); }
 
 static std::string handle(const Toks & t)
 {
@@ -363,7 +364,12 @@ static std::string handle(const Toks & t)
     return std::string("ret ") + (r ? "1" : "0") + " draws " + std::to_string(m.draws) + " counts " + std::to_string(m.counts) +
            " refines " + std::to_string(m.refines);
   }
-  if (op == "rc.load" && t.size() >= 3) { rc.reset(makeRc(t[1])); return rc->load(t); }
+  if (op == "rc.load" && t.size() >= 3) {
+    // a second load of the same point type within a case goes to the SAME model object (as the ICP loop does):
+    // loadCorrespondences must forget the previous consensus
+    if (!rc || rcType != t[1]) { rc.reset(makeRc(t[1])); rcType = t[1]; }
+    return rc->load(t);
+  }
   if (op == "rc.count" && t.size() >= 2) { if (!rc) { throw vp::BadOp(); } return rc->count(t); }
   if (op == "icp.filter" && t.size() >= 2) {
     size_t n = vp::parseU(t[1]);
